@@ -192,6 +192,12 @@ impl AnnotationFinder<'_> {
                 Some(id) => self.id_to_ty.get(&id).cloned()?,
                 None => Type::unit(),
             };
+            // A type that isn't fully known (e.g. the result of
+            // calling a function with no return type) says nothing
+            // about what that path produces, so don't guess.
+            if contains_any_or_error(&ty) || contains_any_or_error(&returned_ty) {
+                return None;
+            }
             ty = unify(&ty, &returned_ty)?;
         }
 
